@@ -144,6 +144,11 @@ type c13cl struct {
 	agreed  bool
 	fetched bool
 	inbox   []hotline.Transaction
+	// what the client itself last asked for (the reference for "honours the recipient's refuse flag and automatic
+	// reply"): refuse = option bit 0 of its last options; auto = the text sent with option bit 2, nil once a later
+	// options field came without that bit
+	refuseSpec bool
+	autoSpec   []byte
 }
 
 type c13run struct {
@@ -331,6 +336,10 @@ func (h *c13run) agree(r *RNG, cl *c13cl) {
 		return
 	}
 	cl.agreed = true
+	cl.refuseSpec = opts&1 != 0
+	if opts&4 != 0 {
+		cl.autoSpec = append([]byte{}, auto...) // bit 2 implies the field is present here
+	}
 	h.record(fmt.Sprintf("A %d %d %s %s %d %s", cl.id, h.req, optTok(name, namePresent), hx(icon), opts, optTok(auto, autoPresent)), outs)
 	h.optionsHonoured(cl, opts, "agreed")
 	h.othersNotified(cl, outs, false, "agreed")
@@ -455,6 +464,12 @@ func (h *c13run) step(r *RNG) {
 		h.record(fmt.Sprintf("U %d %d %s %s %s %s", actor.id, h.req, optTok(name, namePresent), hx(icon), optsTok, optTok(auto, autoPresent)), outs)
 		if optsPresent {
 			h.optionsHonoured(actor, opts, "set-client-user-info")
+			actor.refuseSpec = opts&1 != 0
+			if opts&4 != 0 {
+				actor.autoSpec = append([]byte{}, auto...)
+			} else {
+				actor.autoSpec = nil // automatic response switched off
+			}
 		}
 		h.othersNotified(actor, outs, true, "set-client-user-info")
 		h.ops["set-info"]++
@@ -531,14 +546,21 @@ func (h *c13run) step(r *RNG) {
 
 // instantMessage sends a private message and judges it directly against the target's refuse flag / automatic reply.
 func (h *c13run) instantMessage(r *RNG, actor *c13cl, lv []*c13cl) {
+	target := lv[r.Intn(len(lv))]
+	if r.Chance(8) {
+		h.instantMessageToID(r, actor, target, 60000+r.Intn(5000), true) // nobody holds this id
+		return
+	}
+	h.instantMessageToID(r, actor, target, target.id, false)
+}
+
+func (h *c13run) instantMessageTo(r *RNG, actor, target *c13cl) {
+	h.instantMessageToID(r, actor, target, target.id, false)
+}
+
+func (h *c13run) instantMessageToID(r *RNG, actor, target *c13cl, targetID int, stale bool) {
 	h.req++
 	req := h.req
-	target := lv[r.Intn(len(lv))]
-	targetID := target.id
-	stale := false
-	if r.Chance(8) {
-		targetID, stale = 60000+r.Intn(5000), true // nobody holds this id
-	}
 	msg := textBytes(r, r.Pick(0, 1, 8, 40, 41, 300))
 	fields := []hotline.Field{fld(hotline.FieldData, msg), fld(hotline.FieldUserID, be16(targetID)), fld(hotline.FieldOptions, []byte{0, 1})}
 	quote := textBytes(r, r.Pick(1, 10))
@@ -547,8 +569,8 @@ func (h *c13run) instantMessage(r *RNG, actor *c13cl, lv []*c13cl) {
 		fields = append(fields, fld(hotline.FieldQuotingMsg, quote))
 	}
 	may := actor.cc.Account.Access.IsSet(hotline.AccessSendPrivMsg)
-	refuse := target.cc.Flags.IsSet(hotline.UserFlagRefusePM)
-	auto := append([]byte{}, target.cc.AutoReply...)
+	refuse := target.refuseSpec
+	auto := append([]byte{}, target.autoSpec...)
 	outs, ok := h.call(actor, mkTran(hotline.TranSendInstantMsg, req, fields...))
 	if !ok {
 		return
@@ -621,40 +643,45 @@ func (h *c13run) instantMessage(r *RNG, actor *c13cl, lv []*c13cl) {
 		if len(outs) != 1 || a.replies != 1 || outs[0].ErrorCode != [4]byte{0, 0, 0, 1} {
 			fail("private-message-denied", "a private message from a user without the privilege produced something else than one error reply")
 		}
+		return
 	case stale:
 		if len(outs) != 0 {
 			fail("private-message-to-nobody", "a private message addressed to an id nobody holds produced output")
 		}
-	case refuse:
-		if a.refusals != 1 {
-			fail("refuse-flag-not-honoured", fmt.Sprintf("user %d refuses private messages: the sender must get the refusal (got %d)", target.id, a.refusals))
-		}
-		if t.msgs != 0 || (target != actor && (t.refusals+t.autos+t.other+t.replies) != 0) {
-			fail("refuse-flag-not-honoured", fmt.Sprintf("user %d refuses private messages but received %d message(s) / other transactions", target.id, t.msgs))
-		}
-	default:
-		if t.msgs != 1 {
-			fail("private-message-delivery", fmt.Sprintf("the target of a private message received it %d times, expected once", t.msgs))
-		}
-		if target != actor && (t.refusals+t.autos+t.replies+t.other) != 0 {
-			fail("private-message-delivery", "the target of a private message received something besides the message")
-		}
+		return
 	}
-	if may && !stale {
-		wantAuto := 0
-		if len(auto) > 0 {
-			wantAuto = 1
-		}
-		// an automatic reply whose text equals the message itself is indistinguishable from the message when sender = target
-		if !(target == actor) && a.autos != wantAuto {
-			fail("automatic-reply", fmt.Sprintf("the target's automatic reply must go to the sender exactly when set: sender got %d, expected %d", a.autos, wantAuto))
-		}
-		if target != actor && t.autos != 0 {
-			fail("automatic-reply", "the automatic reply was sent to the target instead of the sender")
-		}
-		if a.replies != 1 {
-			fail("reply-count", fmt.Sprintf("a private-message request got %d replies", a.replies))
-		}
+	// what the sender and the target must have got, from the target's own current settings
+	wantAuto := 0
+	if len(auto) > 0 {
+		wantAuto = 1
+	}
+	wantRefusal, wantMsg := 0, 1
+	if refuse {
+		wantRefusal, wantMsg = 1, 0
+	}
+	switch {
+	case refuse && a.refusals != 1:
+		fail("refuse-flag-not-honoured", fmt.Sprintf("user %d refuses private messages: the sender must get the refusal (got %d)", target.id, a.refusals))
+	case refuse && t.msgs != 0:
+		fail("refuse-flag-not-honoured", fmt.Sprintf("user %d refuses private messages but received %d message(s)", target.id, t.msgs))
+	case !refuse && a.refusals != 0:
+		fail("refuse-flag-not-honoured", fmt.Sprintf("user %d does not refuse private messages (its last options cleared the flag) but the sender got a refusal", target.id))
+	case t.msgs != wantMsg:
+		fail("private-message-delivery", fmt.Sprintf("the target of a private message received it %d times, expected %d", t.msgs, wantMsg))
+	case t.autos != 0:
+		fail("automatic-reply", "the automatic reply was sent to the target instead of the sender")
+	case a.autos != wantAuto:
+		fail("automatic-reply", fmt.Sprintf("the target's automatic reply must go to the sender exactly when set: sender got %d, expected %d", a.autos, wantAuto))
+	case a.other != 0 && wantAuto == 0:
+		fail("automatic-reply", fmt.Sprintf("user %d has no automatic reply set (switched off, or never on) but the sender received an extra server message (a stale automatic reply?)", target.id))
+	case a.other != 0 || a.msgs != 0:
+		fail("private-message-extra", "the sender of a private message received a transaction that is neither the refusal, the target's automatic reply nor the reply")
+	case t.refusals+t.replies+t.other != 0:
+		fail("private-message-delivery", "the target of a private message received something besides the message")
+	case a.replies != 1:
+		fail("reply-count", fmt.Sprintf("a private-message request got %d replies", a.replies))
+	case a.refusals != wantRefusal:
+		fail("refuse-flag-not-honoured", "refusal count differs from the target's setting")
 	}
 }
 
@@ -1033,6 +1060,76 @@ func runTargeted(c *Case) {
 	c.Dist(fmt.Sprintf("targeted/keepOld=%v", keepOld))
 }
 
+// ---------------------------------------------------------------- switching the automatic reply / refusal off again
+
+// runOptionSwitch: a user switches automatic response (and refuse-messages) on and later off again with
+// set-client-user-info; a private message from somebody else must follow the *current* setting.
+func runOptionSwitch(c *Case) {
+	r := c.R
+	ts, err := newTS(TSOpt{Direct: true, Accounts: c13Accounts()})
+	if err != nil {
+		panic(err)
+	}
+	defer ts.Close()
+	h := &c13run{c: c, ts: ts, req: 1000, ops: map[string]int{}}
+	x := h.connect(r)
+	y := h.connect(r)
+	for y.acct != 0 && y.acct != 1 && y.acct != 2 && y.acct != 5 { // the sender must be allowed to send private messages
+		outs := disconnectSync(ts, y.cc)
+		y.live = false
+		h.record(fmt.Sprintf("D %d", y.id), outs)
+		y = h.connect(r)
+	}
+	h.agree(r, x)
+	h.agree(r, y)
+	setInfo := func(cl *c13cl, opts int, withOpts bool, auto []byte) {
+		h.req++
+		fields := []hotline.Field{fld(hotline.FieldUserName, []byte("x")), fld(hotline.FieldUserIconID, be16(5))}
+		optsTok := "none"
+		if withOpts {
+			fields = append(fields, fld(hotline.FieldOptions, be16(opts)))
+			optsTok = fmt.Sprint(opts)
+		}
+		autoPresent := withOpts && opts&4 != 0
+		if autoPresent {
+			fields = append(fields, fld(hotline.FieldAutomaticResponse, auto))
+		}
+		outs, ok := h.call(cl, mkTran(hotline.TranSetClientUserInfo, h.req, fields...))
+		if !ok {
+			return
+		}
+		h.record(fmt.Sprintf("U %d %d %s %s %s %s", cl.id, h.req, hx([]byte("x")), hx(be16(5)), optsTok, optTok(auto, autoPresent)), outs)
+		if withOpts {
+			cl.refuseSpec = opts&1 != 0
+			if opts&4 != 0 {
+				cl.autoSpec = append([]byte{}, auto...)
+			} else {
+				cl.autoSpec = nil
+			}
+		}
+	}
+	// on (with text), optionally changed, then off in one of several ways, sometimes on again
+	setInfo(x, 4|r.Intn(4), true, textBytes(r, 1+r.Intn(20)))
+	if r.Chance(30) {
+		setInfo(x, 4|r.Intn(4), true, textBytes(r, 1+r.Intn(20)))
+	}
+	setInfo(x, r.Intn(4), true, nil) // bit 2 cleared: automatic response off
+	if r.Chance(25) {
+		setInfo(x, 0, false, nil) // a request without options changes nothing
+	}
+	if r.Chance(20) {
+		setInfo(x, 4, true, textBytes(r, 1+r.Intn(10)))
+	}
+	h.instantMessageTo(r, y, x)
+	h.instantMessageTo(r, x, y)
+	ans := c.O.Ask("c13run " + strings.Join(h.evs, " "))
+	implLine := fmt.Sprintf("%d ", len(h.evs)) + strings.Join(h.impl, " | ") + " || " + h.implState()
+	c.Note("history", clip(strings.Join(h.evs, " ")))
+	c.Corr("option-switch-history", implLine, ans, false)
+	c.Nontrivial("switch " + strings.Join(h.evs, " "))
+	c.Dist("option-switch/run")
+}
+
 // ---------------------------------------------------------------- presence over real connections
 
 type wireUser struct {
@@ -1364,7 +1461,7 @@ func runPresenceWire(c *Case) {
 
 func init() {
 	props["C13"] = func(x *Ctx) {
-		x.rule = "histories of connect (1.5+ login, name still empty) / agreed (name, 2- or 4-byte icon, options 0..7, automatic response) / set-client-user-info (with and without options) / set-user (privilege change by users with and without modify-user; toggles the admin flag) / disconnect / instant message (refuse flag, automatic reply, quote, ids nobody holds) / fetch by 2-8 clients over 6 accounts; per-connection inboxes are built by routing every transaction through the real client table; after events (25%) and at the end, when no login is half-way, every client's folded roster must equal a fresh user-list reply. id-wrap: users alive at ids 1,2,3,7,100,65533..65535 while the counter crosses 65 535 / 2^32 with adds and deletes; long-wrap: one 2·10^5-step add/delete history (<= 40 alive) crossing 65 535 three times; targeted: message / invitation / info / disconnect addressed to an id after the wrap; presence-wire: both login flows, Agreed, set-client-user-info, fetch and client-side close over real connections (handleNewConnection + processOutbox), rosters folded from the bytes each connection received. non-trivial = history with >= 2 completed logins, a later change or departure and >= 1 roster comparison (presence); every wrap / targeted case; distinct = distinct event lists / parameters"
+		x.rule = "histories of connect (1.5+ login, name still empty) / agreed (name, 2- or 4-byte icon, options 0..7, automatic response) / set-client-user-info (with and without options) / set-user (privilege change by users with and without modify-user; toggles the admin flag) / disconnect / instant message (refuse flag, automatic reply, quote, ids nobody holds) / fetch by 2-8 clients over 6 accounts; per-connection inboxes are built by routing every transaction through the real client table; after events (25%) and at the end, when no login is half-way, every client's folded roster must equal a fresh user-list reply. id-wrap: users alive at ids 1,2,3,7,100,65533..65535 while the counter crosses 65 535 / 2^32 with adds and deletes; long-wrap: one 2·10^5-step add/delete history (<= 40 alive) crossing 65 535 three times; targeted: message / invitation / info / disconnect addressed to an id after the wrap; option-switch: automatic response / refuse-messages switched on, changed, off (and on) again with set-client-user-info, then a private message each way judged against the current settings; presence-wire: both login flows, Agreed, set-client-user-info, fetch and client-side close over real connections (handleNewConnection + processOutbox), rosters folded from the bytes each connection received. non-trivial = history with >= 2 completed logins, a later change or departure and >= 1 roster comparison (presence); every wrap / targeted case; distinct = distinct event lists / parameters"
 		x.assume = []string{
 			"a client fetches its user list after its own login completed and sends Agreed once (the server does not echo a user's own Agreed back to it)",
 			"roster comparison only when nothing is in flight and no login is half-way (DESIGN §7 C13 Reading); histories are sequential",
@@ -1377,6 +1474,7 @@ func init() {
 			{Name: "long-wrap", Quick: 1, Thor: 8, Run: runLongWrap},
 			{Name: "targeted", Quick: 48, Thor: 500, Run: runTargeted},
 			{Name: "presence-wire", Quick: 16, Thor: 300, Run: runPresenceWire},
+			{Name: "option-switch", Quick: 150, Thor: 4000, Run: runOptionSwitch},
 		}
 		only := os.Getenv("VERIF_ONLY_FAMILY") // development aid: run a single family
 		for _, f := range fams {
